@@ -927,7 +927,17 @@ class World(object):
         op = st.op
         self.room()
         f = op['f']
-        a = self.ref(op['a'])
+        if f == 'pow':
+            # the library itself warns of "long execution times and huge memory usage" when the
+            # exponent gets fraction bits: small words, small integer exponents, and no global
+            # template (which would shape the constant exponent) only
+            if self.template is not None or self.cfg_template is not None:
+                raise Skip('pow under a global template')
+            a = self.ref(op['a'], lambda o: o.n_word <= 16 and np.asarray(o.val).dtype.kind in 'iu')
+            if 'val' not in op['b'] or op['b']['val'][0] != 'i' or not 0 <= op['b']['val'][1] <= 3:
+                raise Skip('pow exponent')
+        else:
+            a = self.ref(op['a'])
         bd = op['b']
         route = op.get('route', 'op')
         b = None
@@ -1022,15 +1032,17 @@ class World(object):
             self.bump('arith_operand_from_container')
         if route == 'op':
             x = (ao + bv if f == 'add' else ao - bv if f == 'sub' else ao * bv if f == 'mul' else
-                 ao / bv if f == 'truediv' else ao // bv if f == 'floordiv' else ao % bv)
+                 ao / bv if f == 'truediv' else ao // bv if f == 'floordiv' else ao ** bv if f == 'pow'
+                 else ao % bv)
         elif route == 'rop':
             x = (bv + ao if f == 'add' else bv - ao if f == 'sub' else bv * ao if f == 'mul' else
-                 bv / ao if f == 'truediv' else bv // ao if f == 'floordiv' else bv % ao)
+                 bv / ao if f == 'truediv' else bv // ao if f == 'floordiv' else bv ** ao if f == 'pow'
+                 else bv % ao)
         elif route == 'fn':
             x = getattr(fxf, f)(ao, bv, **kwargs)
         else:
             npf = {'add': np.add, 'sub': np.subtract, 'mul': np.multiply, 'truediv': np.true_divide,
-                   'floordiv': np.floor_divide, 'mod': np.mod}[f]
+                   'floordiv': np.floor_divide, 'mod': np.mod, 'pow': np.power}[f]
             x = npf(ao, bv, **kwargs)
         k = self.finish_new(st, x, origin='arith')
         self.register_written(st)
@@ -1214,9 +1226,12 @@ class World(object):
         st.store = Store('dest' if st.dest is not None else 'new', route='npfunc', judge_cb=False,
                          judge_flags=False)
         yield
-        f = {'negative': np.negative, 'absolute': np.absolute, 'square': np.square,
-             'floor': np.floor, 'sign': np.sign}[op['f']]
-        x = f(self.obj(a))
+        if op['f'] in ('mean', 'std', 'var') and op.get('route') == 'method':
+            x = getattr(self.obj(a), op['f'])()
+        else:
+            f = {'negative': np.negative, 'absolute': np.absolute, 'square': np.square,
+                 'floor': np.floor, 'sign': np.sign, 'mean': np.mean, 'std': np.std, 'var': np.var}[op['f']]
+            x = f(self.obj(a))
         k = self.finish_new(st, x, origin='npfunc')
         self.register_written(st)
 
